@@ -258,6 +258,24 @@ func init() {
 				run(c, "cose.rsaExponent", encodeMembers(ms), "")
 			}
 		}},
+		Stream{"cose.rsaModulus", func(c *Ctx) {
+			// moduli at and around the sizes in use (and beyond), minimal and with leading zero octets (as a big-integer library that writes
+			// a sign octet does): the parser looks at nothing but the number
+			r := c.R
+			for _, bits := range []int{512, 1024, 2040, 2048, 2056, 3072, 4088, 4096, 4104, 8192, 16384} {
+				for rep := 0; rep < 2; rep++ {
+					n := r.Bytes(bits / 8)
+					n[0] |= 0x80
+					n[len(n)-1] |= 1
+					for _, zeros := range []int{0, 1, 2, 8} {
+						for _, alg := range []int64{-257, -37, -65535, -259} {
+							ms := []member{{1, cborInt(3)}, {3, cborInt(alg)}, {-1, cborBytes(append(make([]byte, zeros), n...))}, {-2, cborBytes([]byte{1, 0, 1})}}
+							run(c, "cose.rsaModulus", encodeMembers(ms), pick(r, []string{"", "", "rsa"}))
+						}
+					}
+				}
+			}
+		}},
 		Stream{"cose.random", func(c *Ctx) {
 			n := c.N(4000, 300000)
 			for i := 0; i < n; i++ {
